@@ -290,3 +290,11 @@ MANIFEST_ENTRY = dict(
     note='Bounded skeletons, generic rational probabilities (tier B); floats as reals; uniqueness of the linear solution trusted.',
 )
 END_MANIFEST_ENTRY = True
+
+
+SENTINELS = globals().get('SENTINELS', []) + [
+    Sentinel('discounted-evaluation-keeps-transitions-out-of-absorbing-states', 'msdm.core.mdp.tabularpolicy', '        markov_process[absorbing_state_vec, :] = 0\n        successor_representation = np.linalg.inv(',
+             '        successor_representation = np.linalg.inv(', ['re:^eval/discounted/s2-explicit']),
+    Sentinel('discounted-action-values-forget-the-discount', 'msdm.core.mdp.tabularpolicy', '                mdp.discount_rate*mdp.transition_matrix,\n',
+             '                mdp.transition_matrix,\n', ['re:^eval/discounted/s3-branch']),
+]
